@@ -153,6 +153,9 @@ def _get_timestamp_format(value):
 
 def _datetime_obj_factory(value, fmt):
     try:
+        if not re.match(r'^[0-9.]*$', value):
+            # strptime is more liberal than HL7: it takes a blank for the tens of the day
+            raise ValueError()
         dt_value = datetime.strptime(value, fmt)
     except ValueError:
         raise ValueError('{0} is not an HL7 valid date value'.format(value))
